@@ -66,9 +66,9 @@ def family_specs(tier: str) -> dict:
     return {
         # two symlink targets                                                           => 1681 trees
         "base2": [((0, 1), ("x", "y", "s1", "s2")), ((0, 1), ("x", "y", "s1", "s2"))],
-        # three top-level names {a,b,c} x {absent, file x, file y, dir}, inner directories over
-        # {a,b} x {absent, file x, empty dir}                                           => 1728 trees
-        "wide3": [((0, 1, 2), ("x", "y")), ((0, 1), ("x",))],
+        # three top-level names {a,b,c} x {absent, file x, dir}, inner directories over
+        # {a,b} x {absent, file x, empty dir}                                           => 1331 trees
+        "wide3": [((0, 1, 2), ("x",)), ((0, 1), ("x",))],
         # one top-level name, depth 3, quick leaf set                                    => 845 trees
         "deep3": [((0,), ("x", "y", "s1")), ((0, 1), ("x", "y", "s1")), ((0, 1), ("x", "y", "s1"))],
     }
